@@ -17,7 +17,7 @@ def np_diag(interp, v, k=0):
         return A.new_arr((n, n), lambda idx: sv.ite(sv.cmp("==", idx[0], idx[1]), lambda: r((idx[0],)), zero), a.dtype)
     if a.ndim == 2:
         A.require_dim_eq(a.shape[0], a.shape[1], "diag-square")
-        return A.new_arr((a.shape[0],), lambda idx: r((idx[0], idx[0])), a.dtype)
+        return A.new_arr((a.shape[0],), lambda idx: r((idx[0], idx[0])), a.dtype, readonly=True)      # numpy: a read-only view of the diagonal
     raise EngineError("np.diag rank")
 
 
